@@ -725,7 +725,7 @@ fn gsub_builders_degenerate() -> Vec<u8> {
     let mut vs = VariationStoreBuilder::new(2);
     let flags = LookupFlag::empty();
 
-    let mut single = LookupBuilder::<SingleSubBuilder>::new(flags, Some(3));
+    let mut single = LookupBuilder::<SingleSubBuilder>::new(LookupFlag::USE_MARK_FILTERING_SET, Some(3));
     for (a, b) in [(12u16, 40u16), (10, 40), (11, 41), (10, 40), (12, 40), (13, 40), (12, 44)] {
         single.last_mut().unwrap().insert(g(a), g(b));
     }
@@ -814,12 +814,12 @@ fn gpos_builders_degenerate() -> Vec<u8> {
         cu.last_mut().unwrap().insert(g(gl), Some(AnchorBuilder::new(x, 0).with_contourpoint(2)), Some(AnchorBuilder::new(100, x).with_x_device(var(2, x))));
     }
 
-    let mut mb = LookupBuilder::<MarkToBaseBuilder>::new(flags, Some(1));
+    let mut mb = LookupBuilder::<MarkToBaseBuilder>::new(LookupFlag::USE_MARK_FILTERING_SET, Some(1));
     let mut mm = LookupBuilder::<MarkToMarkBuilder>::new(flags, None);
     let mut ml = LookupBuilder::<MarkToLigBuilder>::new(flags, None);
-    for rep in 0..2 {
+    for _rep in 0..2 {
         for (gl, cls) in [(501u16, "top"), (500, "top"), (503, "bottom"), (502, "bottom")] {
-            let a = AnchorBuilder::new(7, 8 + rep * 0).with_y_device(dev());
+            let a = AnchorBuilder::new(7, 8).with_y_device(dev());
             mb.last_mut().unwrap().insert_mark(g(gl), cls, a.clone()).unwrap();
             mm.last_mut().unwrap().insert_mark1(g(gl), cls, a.clone()).unwrap();
             ml.last_mut().unwrap().insert_mark(g(gl), cls, a).unwrap();
